@@ -270,3 +270,38 @@ Proof.
   - exact Hr.
   - apply conv_converged; [exact Hok'|]. rewrite Hg'. exact Hc.
 Qed.
+
+(* ------------------------------------------------------------------------------------------ *)
+(* quiescence implies convergence                                                             *)
+(* ------------------------------------------------------------------------------------------ *)
+Lemma fixedb_fixed_point : forall S, net_ok S -> fixedb S = true -> fixed_point S.
+Proof.
+  intros S [Hnd Hall] Hf i j ri rj d Gi Gj Hj.
+  unfold fixedb in Hf. rewrite forallb_forall in Hf.
+  destruct (getr_some _ _ _ Gi) as [Ii Si].
+  specialize (Hf ri Ii). rewrite forallb_forall in Hf. specialize (Hf j Hj). rewrite Gj in Hf.
+  rewrite forallb_forall in Hf.
+  change (rv (rrib ri) d j) with (cost_via (rrib ri) d j).
+  change (newc i (rrib rj) d) with (offered i (rrib rj) d).
+  destruct (aget d (rrib ri)) as [e|] eqn:E1.
+  - assert (Hin : In d (map fst (rrib ri) ++ map fst (rrib rj))).
+    { apply in_or_app. left. eapply aget_some_key; eauto. }
+    specialize (Hf d Hin). rewrite Si in Hf. lia.
+  - destruct (aget d (rrib rj)) as [e|] eqn:E2.
+    + assert (Hin : In d (map fst (rrib ri) ++ map fst (rrib rj))).
+      { apply in_or_app. right. eapply aget_some_key; eauto. }
+      specialize (Hf d Hin). rewrite Si in Hf. lia.
+    + unfold cost_via, offered. rewrite E1, E2. reflexivity.
+Qed.
+
+(* a quiescent network (every router has processed every neighbour's current advertisement) is converged *)
+Theorem quiescent_is_converged : forall S,
+  net_ok S -> settled (topo_of S) = true -> fixedb S = true -> converged S = true.
+Proof.
+  intros S Hok Hs Hf.
+  apply conv_converged; [exact Hok|].
+  apply (fixed_point_conv (topo_of S) Hs S (N.of_nat (maxdist (topo_of S)))).
+  - split; [exact Hok | reflexivity].
+  - apply fixedb_fixed_point; assumption.
+  - apply maxdist_bound.
+Qed.
